@@ -98,9 +98,16 @@ impl ChildProc {
                 Resp::Timeout
             }
             Err(RecvTimeoutError::Disconnected) => {
+                use std::os::unix::process::ExitStatusExt;
                 let st = self.child.wait();
+                let code = match &st {
+                    Ok(s) => s.code().map(|c| format!("exit={}", c)).or_else(|| s.signal().map(|g| format!("signal={}", g))).unwrap_or_else(|| "exit=?".into()),
+                    Err(e) => format!("wait failed: {}", e),
+                };
+                // give the stderr reader a moment to drain
+                std::thread::sleep(Duration::from_millis(2));
                 let tail = self.stderr_tail.lock().unwrap().join(" | ");
-                Resp::Died(format!("{:?} stderr: {}", st, tail))
+                Resp::Died(format!("{} stderr: {}", code, tail))
             }
         }
     }
